@@ -19,6 +19,7 @@ pub broadcast axiom fn axiom_dotdot_lit() ensures #[trigger] sb("..") == seq![46
 pub trait VxStr {
     spec fn vx_sb(&self) -> Seq<u8>;
     fn vx_len(&self) -> (r: usize);
+    fn vx_as_bytes(&self) -> (r: &[u8]);
     // slicing: the cut must be a char boundary (stated on bytes: an end, or next to an ASCII byte)
     fn vx_to<'a>(&'a self, i: usize) -> (r: &'a str) requires i <= self.vx_sb().len(), boundary(self.vx_sb(), i as int);
     fn vx_from<'a>(&'a self, i: core::ops::RangeFrom<usize>) -> (r: &'a str) requires i.start <= self.vx_sb().len(), boundary(self.vx_sb(), i.start as int);
@@ -37,6 +38,7 @@ pub trait VxStr {
 impl VxStr for str {
     open spec fn vx_sb(&self) -> Seq<u8> { sb(self) }
     #[verifier::external_body] fn vx_len(&self) -> (r: usize) ensures r == sb(self).len() { self.len() }
+    #[verifier::external_body] fn vx_as_bytes(&self) -> (r: &[u8]) ensures r@ == sb(self) { self.as_bytes() }
     #[verifier::external_body] fn vx_to<'a>(&'a self, i: usize) -> (r: &'a str) ensures sb(r) == sb(self).subrange(0, i as int) { &self[..i] }
     #[verifier::external_body] fn vx_from<'a>(&'a self, i: core::ops::RangeFrom<usize>) -> (r: &'a str) ensures sb(r) == sb(self).subrange(i.start as int, sb(self).len() as int) { &self[i] }
     #[verifier::external_body] fn vx_byte(&self, i: usize) -> (r: u8) ensures r == sb(self)[i as int] { self.as_bytes()[i] }
